@@ -306,8 +306,21 @@ pub struct Config {
     pub check: CheckConfig,
 
     /// Custom language definitions (comment syntax).
-    #[serde(default)]
+    #[serde(default, serialize_with = "serialize_in_key_order")]
     pub languages: std::collections::HashMap<String, CustomLanguageConfig>,
+}
+
+/// Serialize a map in key order: `HashMap` iteration order differs from run to run, and
+/// `config show` prints the serialized configuration.
+fn serialize_in_key_order<S, V>(
+    map: &std::collections::HashMap<String, V>,
+    serializer: S,
+) -> Result<S::Ok, S::Error>
+where
+    S: serde::Serializer,
+    V: Serialize,
+{
+    serializer.collect_map(map.iter().collect::<std::collections::BTreeMap<_, _>>())
 }
 
 #[derive(Debug, Clone, Default, Serialize, Deserialize, PartialEq, Eq)]
